@@ -31,6 +31,8 @@ func c25(p *core.Program, r *core.Report) {
 	r.Rule("R2", "attribute type tables agree: the value types txUpdateAttrs stores (after coercing int/uint/uint64 to int64) are exactly the types pilosa.encodeAttr and encoding/proto.encodeAttr can encode (both also accept uint64), and each decoder has one case per attribute type constant")
 	r.Rule("R6", "the write is skipped only for identical attributes: a predicate over two attribute maps that guards an early return in an attrStore Set* method (mapContains) and everything it calls in package boltdb contains no type switch, type assertion, basic-type conversion or reflection: it compares interface values")
 	c25SkipOnlyIdentical(p, r)
+	r.Rule("R7", "no caller map is retained: a function of package boltdb that takes an attribute map and returns one never returns a variable that may alias the parameter")
+	c25CallerMapNotRetained(p, r)
 	r.Rule("R4", "block bounds agree: attrStore.Blocks and attrStore.BlockData segment ids by the same constant (attrBlockSize) with the same half-open convention")
 	r.Rule("R5", "a null reaches the store: outside the attribute store itself, every loop that copies one attribute map into another (range over a map[string]interface{} storing dst[key] = value) stores every entry, whatever its value -- a nil value is the instruction to delete the key and must arrive at SetAttrs/SetBulkAttrs, not be dropped or applied to the pending batch")
 	c25NullReachesStore(p, r)
